@@ -998,7 +998,6 @@ func returnsItsArgument(fn *ssa.Function) bool {
 	return found
 }
 
-
 // soleDelegate: fn consists of one call of a function of its package whose results it returns unchanged.
 func soleDelegate(fn *ssa.Function) *ssa.Function {
 	var call *ssa.Call
